@@ -94,8 +94,10 @@ def build_value(spec):
         return I.cl.Flags(**spec[1])
     if t == 'tags':
         return I.Tags(list(spec[1]))
-    if t in ('mf', 'ud', 'ld'):
+    if t in ('mf', 'ud', 'ld'):          # from a JSON string
         return {'mf': I.MeasurementData, 'ud': I.UserData, 'ld': I.LayoutData}[t](spec[1])
+    if t in ('mfo', 'udo', 'ldo'):       # from a Python object (the constructor encodes it)
+        return {'mfo': I.MeasurementData, 'udo': I.UserData, 'ldo': I.LayoutData}[t](spec[1])
     if t == 'tuple':
         return tuple(spec[1])
     if t == 'deleg':
@@ -444,6 +446,28 @@ def gen_value(rng, kind, kw):
     raise KeyError(kw)
 
 
+BLOB = {'mf_data': ('mf', 'MeasurementData'), 'user_data': ('ud', 'UserData'), 'layout_data': ('ld', 'LayoutData')}
+
+
+def blob_spec(p, delta, as_object):
+    """a JSON blob for property p whose encoding has exactly MAX_SIZE + delta characters, given to the
+    constructor as a Python object (it encodes it) or as the JSON string itself"""
+    I = Impl.get()
+    tag, cls = BLOB[p]
+    n = getattr(I, cls).MAX_SIZE + delta
+    obj = {'k': 'x' * (n - len(json.dumps({'k': ''})))}
+    assert len(json.dumps(obj)) == n
+    return [tag + 'o', obj] if as_object else [tag, json.dumps(obj)]
+
+
+def try_value(spec):
+    """the value, or None when its own constructor refuses it"""
+    try:
+        return build_value(spec)
+    except Exception:
+        return None
+
+
 def gen_props(rng, kind, mode, cover=None):
     """a property list of one sliver. mode: 'full' (every setter once), 'some', 'min' (name, type)"""
     voc = vocabulary(kind)
@@ -591,6 +615,16 @@ class Flat(Stream):
         for k in KINDS:                       # every setter of every class at least twice per run
             for _ in range(2):
                 out.append({'k': k, 'id': 'id-' + g_name(rng), 'props': gen_props(rng, k, 'full', self.cover)})
+        # JSON blobs whose encoding is exactly MAX_SIZE-1 / MAX_SIZE characters, given as object and as string
+        # (MAX_SIZE+1 is refused by the blob's constructor: such a sliver cannot be built - counted, trivial)
+        for p in BLOB:
+            for delta, as_obj in ((0, True), (0, False), (-1, True), (1, True), (1, False)):
+                k = rng.choice(KINDS)
+                c = {'k': k, 'id': 'id-blob', 'props': [['name', ['str', 'blob-' + p.replace('_', '-')]],
+                                                        [p, blob_spec(p, delta, as_obj)]]}
+                if delta > 0:
+                    c['refused'] = True
+                out.append(c)
         for i in range(n):
             k = KINDS[i % 5]
             mode = rng.choice(['full', 'some', 'some', 'some', 'min'])
@@ -644,12 +678,14 @@ class Flat(Stream):
 
     def to_coq(self, case, o):
         if 'build_err' in o:
-            return '(%s, [], None, None)' % KCOQ[case['k']]
+            return '(KLink, [], Some [], None)'      # no sliver to convert (its value was refused): a case the model trivially agrees on
         d = None if is_err(o['d']) else o['d']
         b = None if (o['back'] is None or is_err(o['back'])) else o['back']
         return '(%s, %s, %s, %s)' % (KCOQ[case['k']], c_attrs(o['a']), copt(d, c_props), copt(b, c_attrs))
 
     def oracle(self, case, o):
+        if case.get('refused'):
+            return None if 'build_err' in o else 'NEW | a JSON blob whose encoding is longer than MAX_SIZE was accepted'
         if 'build_err' in o:
             return None
         if is_err(o['d']):
@@ -786,6 +822,18 @@ class Deep(Stream):
             kind = rng.choice(['node'] * 6 + ['service'] * 3 + ['interface', 'interface', 'link', 'component'])
             budget = [rng.choice([2, 4, 6, 10, 14] if tier == 'quick' else [2, 4, 6, 10, 20, 30])]
             out.append(gen_tree(rng, kind, 4, budget, self.cover, [0]))
+
+        # boundary-size JSON blobs (encoding of exactly MAX_SIZE characters, given as objects) on a node, its
+        # component and the component's service: all three routes
+        def sl(k, name, en, ty, p, **kw):
+            d = {'k': k, 'id': name + '-id', 'props': [['name', ['str', name]], ['type', ['enum', en, ty]],
+                                                       [p, blob_spec(p, 0, True)]]}
+            d.update(kw)
+            return d
+        ns = sl('service', 'bns1', 'ServiceType', 'OVS', 'layout_data')
+        comp = sl('component', 'bnic1', 'ComponentType', 'SmartNIC', 'user_data', nss=[ns])
+        out.append(sl('node', 'bnode1', 'NodeType', 'Server', 'mf_data', comps=[comp], nss=None))
+        out.append(sl('node', 'bnode2', 'NodeType', 'VM', 'user_data', comps=None, nss=None))
         return out
 
     def corpus(self):
@@ -1013,6 +1061,18 @@ class Element(Stream):
                 self.cover[(k, p)] = self.cover.get((k, p), 0) + 1
                 out.append({'k': k, 'ops': [['get', p], ['unset', p], ['get', p], ['set', p, v], ['get', p],
                                             ['unset', p], ['get', p]]})
+        # JSON blobs whose encoding is exactly MAX_SIZE-1 / MAX_SIZE / MAX_SIZE+1 characters, given as object and
+        # as string: accepted ones read back, MAX_SIZE+1 is refused and leaves the element unchanged;
+        # through set_property and through the constructor
+        for p in BLOB:
+            out.append({'k': 'node', 'ops': [['set', p, blob_spec(p, 0, True)], ['get', p],
+                                             ['set', p, blob_spec(p, 1, True)], ['get', p],
+                                             ['set', p, blob_spec(p, -1, False)], ['get', p],
+                                             ['set', p, blob_spec(p, 1, False)], ['get', p],
+                                             ['set', p, blob_spec(p, 0, False)], ['get', p], ['get', 'site']]})
+            k2 = [k for k in kinds if k != 'node'][len(out) % max(1, len(kinds) - 1)] if len(kinds) > 1 else 'node'
+            out.append({'k': k2, 'ops': [['set', p, blob_spec(p, 0, True)], ['get', p], ['get', 'name']]})
+            out.append({'k': 'node', 'ctor': [[p, blob_spec(p, 0, True)]], 'ops': [['get', p], ['get', 'site']]})
         # a returned value object modified in place must not change what later reads return
         for k in kinds:
             for p in vocabulary(k):
@@ -1044,6 +1104,9 @@ class Element(Stream):
         try:
             t, el = make_topology()
             e = el[case['k']]
+            if case.get('ctor'):      # a node created with the properties given to the constructor
+                e = t.add_node(name='nodeC', site='RENC', ntype=I.NodeType.VM,
+                               **{q: build_value(v) for q, v in case['ctor']})
             gm = t.graph_model
             d0 = abs_props(gm.get_node_properties(node_id=e.node_id)[1])
         except Exception as ex:
@@ -1052,7 +1115,6 @@ class Element(Stream):
         for op in case['ops']:
             try:
                 if op[0] == 'set':
-                    v = build_value(op[2])
                     # reference semantics of the setter/getter pair: a bare sliver without any graph
                     try:
                         bare = I.CLS[case['k']]()
@@ -1060,6 +1122,7 @@ class Element(Stream):
                         expect.append(tok(bare.get_property(op[1])))
                     except Exception:
                         expect.append('raises')
+                    v = build_value(op[2])
                     e.set_property(op[1], v)
                     res.append('done')
                 elif op[0] == 'unset':
@@ -1091,12 +1154,16 @@ class Element(Stream):
         ops = []
         for op in case['ops']:
             if op[0] == 'set':
-                # the argument as the user passes it
-                ops.append('OSet %s %s' % (c_string(op[1]), c_fval(tok(build_value(op[2])))))
+                # the argument as the user passes it (or: its own constructor refuses it)
+                v = try_value(op[2])
+                ops.append('OBadValue %s' % c_string(op[1]) if v is None else
+                           'OSet %s %s' % (c_string(op[1]), c_fval(tok(v))))
             elif op[0] == 'unset':
                 ops.append('OUnset %s' % c_string(op[1]))
             elif op[0] in ('get', 'getmut'):
                 ops.append('OGet %s' % c_string(op[1]))
+            elif any(try_value(v) is None for _, v in op[1]):
+                ops.append('OBadValue %s' % c_string(op[1][0][0]))
             else:
                 ops.append('OSetMany %s' % clist(['(%s, %s)' % (c_string(q), c_ofval(tok(build_value(v)))) for q, v in op[1]]))
         rs = []
@@ -1124,6 +1191,13 @@ class Element(Stream):
         # and refused (TopologyException) when the node has none
         completes = case['k'] == 'node' and hasattr(_Node, '_complete_image_pair')
         pair_stored = False          # the topology's nodes are created without an image
+        for q, v in case.get('ctor', []):
+            try:
+                bare = I.CLS[case['k']]()
+                bare.set_property(q, build_value(v))
+                state[q] = ('set', tok(bare.get_property(q)), 'multi')
+            except Exception:
+                pass
         for idx, (op, r, ex) in enumerate(zip(case['ops'], o['res'], o['bare'])):
             if op[0] == 'set':
                 p = op[1]
